@@ -32,7 +32,7 @@ Take(clauses, update) ==
                ELSE update /\ bad' = bad \cup Failing(clauses)
 
 Cfg == [np |-> NP, one |-> G, target |-> 1, nTotal |-> 1, metric |-> Metric,
-        clustering |-> Clustering, clusterEvery |-> ClusterEvery, cap |-> Cap, minSweeps |-> 1, maxSweeps |-> 2]
+        clustering |-> Clustering, clusterEvery |-> ClusterEvery, cap |-> Cap, minSweeps |-> 1, maxSweeps |-> 2, periodic |-> <<1>>, reflective |-> <<>>]
 
 MCInit ==
     /\ pc = "ctor" /\ cfg = Cfg
@@ -120,7 +120,8 @@ MCMutatePrior ==
 
 MCMutateBegin ==
     /\ pc = "resampled" /\ beta > 0
-    /\ LET o == [slots |-> cur, modes |-> modes, modesOK |-> TRUE] IN Take(MB_Clauses(o), MutateBeginU(o))
+    /\ LET o == [slots |-> cur, modes |-> modes, modesOK |-> TRUE, periodic |-> cfg.periodic, reflective |-> cfg.reflective]
+       IN Take(MB_Clauses(o), MutateBeginU(o))
     /\ UNCHANGED <<nextId, atOne>>
 
 MCSweep ==
